@@ -1,4 +1,5 @@
 import DeltaModel.Generated.VteTable
+import DeltaModel.Generated.AnsiSgr
 /-!
 Model of `anstyle_parse::Parser::advance` (anstyle-parse, the version locked in Cargo.lock) as
 driven by delta's `Performer` (`/repo/src/ansi/iterator.rs`).
@@ -103,10 +104,12 @@ def processUtf8 (p : Parser) (perf : Perf) (byte : Nat) : Parser × Perf :=
   else
     ({ p with utf8Need := p.utf8Need - 1 }, perf)
 
-/-- delta's `Performer::csi_dispatch`. -/
+/-- delta's `Performer::csi_dispatch`. On the unchanged tree (`Generated.csiDropsIgnored`) a
+sequence flagged `ignore` or with more than one intermediate returns without an element — the
+bookkeeping gap of DESIGN defect #10; with the proposed repair it is reported as a CSI element. -/
 def csiDispatch (p : Parser) (perf : Perf) (byte : Nat) : Perf :=
-  if p.ignoring || p.inter > 1 then perf
-  else if byte = 0x6d ∧ p.inter = 0 then
+  if Generated.csiDropsIgnored && (p.ignoring || p.inter > 1) then perf
+  else if byte = 0x6d ∧ p.inter = 0 ∧ p.ignoring = false then
     if p.paramsLen = 0 then { perf with elem := none }
     else { perf with elem := some (Kind.sgr p.paramsIter) }
   else { perf with elem := some Kind.csi }
